@@ -259,6 +259,25 @@ public class Outer {
     }
 }
 `},
+	{"AccountClient", "interface-with-type-level-mapping", `package web;
+
+import org.springframework.web.bind.annotation.*;
+
+@RequestMapping("/accounts")
+public interface AccountClient {
+    @GetMapping("/{id}")
+    String get(String id);
+}
+`},
+	{"Routes", "annotation-type-with-type-level-mapping", `package web;
+
+import org.springframework.web.bind.annotation.*;
+
+@RequestMapping("/routes")
+public @interface Routes {
+    String value();
+}
+`},
 	{"BlogService", "interface-with-service-method", `package svc;
 
 public interface BlogService {
